@@ -20,7 +20,11 @@ Open Scope Z_scope.
     number with the list indexed from the SPEC's InitPacketNumber (not from c_first), a header of exactly the bytes the connection ID lengths, token and packet-number
     length add up to, a Length field of pnLen + |payload| + 16; it is sized by
     InitialPackets[k] (last entry repeating) whatever the builder kind; packet and datagram
-    stay inside the 1452-byte packet buffer and releasing the buffer never panics. *)
+    stay inside the 1452-byte packet buffer.  ([rp = false] holds by construction of the
+    repaired model — every AppOk carries the literal — and is observed on the code by the
+    harness's recover() around buffer.Release(); it is not an independent result.)
+    There is no bound on k: the model's fuel is helloLen + 1 and never runs out
+    (C10_flight_fuel_sufficient). *)
 Theorem C10_header_fields : forall c helloLen plens k pn pnLen h fs lf pk dl ix rp,
   nth_error (flight c helloLen plens) k = Some (DG pn pnLen h fs lf pk dl ix rp) ->
   pn = c_first c + Z.of_nat k /\
@@ -104,6 +108,58 @@ Theorem C10_validated_first_packet : forall scid dcid ipn lens single udpMin pla
 Proof. exact t_C10_validated_first_packet. Qed.
 Print Assumptions C10_validated_first_packet.
 
+(** The flight is as long as the code makes it: the model's fuel (helloLen + 1; every datagram
+    takes at least one CRYPTO byte) never runs out, so the out-of-fuel value never appears and
+    the k-th-packet theorems speak about every datagram, not the first ten. *)
+Theorem C10_flight_fuel_sufficient : forall c helloLen plens, ~ In (DGErr 98) (flight c helloLen plens).
+Proof. exact t_C10_flight_fuel_sufficient. Qed.
+Print Assumptions C10_flight_fuel_sufficient.
+
+Example C10_long_flight_example :
+  length (flight (wcfg BPass [] 1 [(100, 1200)] 0) 1700 []) = 17%nat /\
+  nth_error (flight (wcfg BPass [] 1 [(100, 1200)] 0) 1700 []) 16 = Some (DG 17 1 19 [(1600, 100)] 1182 1200 1200 17 false).
+Proof. exact t_C10_long_flight_example. Qed.
+Print Assumptions C10_long_flight_example.
+
+(** validate, complete (audit round): dial also refuses a synthesised token that leaves no room
+    for a CRYPTO byte in some packet of the flight, and a CryptoLength that its packet cannot
+    hold, computed with the longest header the spec can produce. *)
+Theorem C10_spec_validation_room : forall scid dcid ipn lens single udpMin plans maxPacket tokLen,
+  validateSpecT scid dcid ipn lens single udpMin plans maxPacket tokLen = true ->
+  validateSpec scid dcid ipn lens single udpMin plans maxPacket = true /\
+  let mh := maxHdrLen scid dcid lens single tokLen in
+  mh + 20 <= maxPacket /\
+  Forall (fun p => mh + 20 <= planLimit maxPacket p /\
+                   (0 < fst p -> mh + 1 + 4 + vlen (fst p) + fst p < planLimit maxPacket p - 16)) plans.
+Proof. exact t_C10_spec_validation_room. Qed.
+Print Assumptions C10_spec_validation_room.
+
+(** Regression for the two audit findings (not-rejected/token-no-room: ClientTokenLength 1300 gave an
+    empty flight and a dial that timed out; not-rejected/crypto-split/no-room: CryptoLength 1300
+    was cut at 1241) and instances for all seven built-in fingerprints. *)
+Example C10_validation_room_regression :
+  validateSpec 0 8 1 [] 1 0 [] 1280 = true /\ validateSpecT 0 8 1 [] 1 0 [] 1280 1300 = false /\
+  validateSpecT 0 8 1 [] 1 0 [] 1280 1240 = true /\
+  validateSpec 0 8 1 [] 1 0 [(1300, 0)] 1280 = true /\ validateSpecT 0 8 1 [] 1 0 [(1300, 0)] 1280 0 = false /\
+  validateSpecT 0 8 1 [] 1 0 [(1160, 1200)] 1280 0 = false /\
+  validateSpecT 0 8 1 [1; 2] 0 0 [(999, 1200); (0, 1200)] 1280 70 = true /\
+  validateSpecT 3 8 0 [] 1 1357 [] 1280 0 = true.
+Proof. exact t_C10_validation_room_regression. Qed.
+Print Assumptions C10_validation_room_regression.
+
+Example C10_builtin_specs_accepted :
+  validateSpecT 0 8 1 [] 1 0 [] 1280 0 = true /\          (* Chrome_115 IPv4 / IPv6 *)
+  validateSpecT 0 8 1 [1; 2] 0 0 [] 1280 0 = true /\      (* Chrome_146 IPv4 / IPv6 *)
+  validateSpecT 3 8 0 [] 1 1357 [] 1280 0 = true /\       (* Firefox_116A *)
+  validateSpecT 3 9 0 [] 1 1357 [] 1280 0 = true /\       (* Firefox_116B *)
+  validateSpecT 3 15 0 [] 1 1357 [] 1280 0 = true.        (* Firefox_116C *)
+Proof. exact t_C10_builtin_specs_accepted. Qed.
+Print Assumptions C10_builtin_specs_accepted.
+
+Example C10_random_fits_chrome115 : random_fits (wcfg (BRandom [(1215, 3, 9, 9)]) [] 1 [] 0) [(1215, 3, 9, 9)].
+Proof. exact t_C10_random_fits_chrome115. Qed.
+Print Assumptions C10_random_fits_chrome115.
+
 (** Regression: the inputs of the former findings pn-len/beyond-2^62, pn-range,
     decryptable/pn-not-decodable, dcid-len/below-8, size-rfc-min, release-panic and
     size-max/plan are refused; Chrome_146 with a plan and Firefox_116A are accepted. *)
@@ -121,7 +177,9 @@ Example C10_validation_regression :
 Proof. exact t_C10_validation_regression. Qed.
 Print Assumptions C10_validation_regression.
 
-(** Token: an explicit store's token as it is; otherwise, when ClientTokenLength or the prefix
+(** (The first arm restates the model's match on an explicit store; it is listed for
+    completeness — the tie to the code is the FlightCase / DialCase token comparison.)
+    Token: an explicit store's token as it is; otherwise, when ClientTokenLength or the prefix
     ask for one, max(ClientTokenLength, |prefix|) bytes starting with the prefix (the rest is
     the random source's output, for every output); otherwise what the Config's store has. *)
 Theorem C10_token : forall ctl prefix tail conf,
@@ -177,11 +235,11 @@ Example C10_wire_token_example :
 Proof. exact t_C10_wire_token_example. Qed.
 Print Assumptions C10_wire_token_example.
 
-Theorem C10_cid_lengths : forall specScid specDcid drawn,
+Theorem C10_cid_lengths_by_construction : forall specScid specDcid drawn,
   dialScidLen specScid = specScid /\ (specDcid > 0 -> dialDcidLen specDcid drawn = specDcid) /\
   (specDcid <= 0 -> dialDcidLen specDcid drawn = drawn).
-Proof. exact t_C10_cid_lengths. Qed.
-Print Assumptions C10_cid_lengths.
+Proof. exact t_C10_cid_lengths_by_construction. Qed.
+Print Assumptions C10_cid_lengths_by_construction.
 
 (** ** C10_crypto_split_exact *)
 
@@ -438,7 +496,9 @@ Print Assumptions C10_flight_budget_regression.
 
 (** ** C10_decryptable *)
 
-(** On top of C05's round trip: for every AEAD that opens what it sealed with a 16-byte tag and
+(** (v1 first-byte shape and C05's window form of the packet-number hypothesis; superseded by
+    C10_server_reads_back, which covers both versions and the full range dial accepts.)
+    On top of C05's round trip: for every AEAD that opens what it sealed with a 16-byte tag and
     every header-protection mask, the k-th packet of every flight, carrying any payload of
     the length the model computed (non-empty, packet number + payload >= 4 bytes), opens at a
     receiver that has opened the previous packet of the flight — or, for the first packet,
@@ -491,7 +551,8 @@ Print Assumptions C10_header_bytes.
     bytes on the wire reads type Initial, the version, exactly that DCID, SCID and token and a
     Length that is exactly the rest of the packet; removing header protection at the offset
     the parser reports, decoding the packet number (having opened the previous packet of the
-    flight, or nothing for a first packet inside the window — C10_validated_first_packet) and
+    flight, or nothing for a first packet whose number fits its encoding — exactly what dial
+    accepts, C10_spec_validation / C10_validated_first_packet) and
     opening the AEAD gives back the first byte, the full packet number, its encoding length
     and the frames. *)
 Theorem C10_server_reads_back :
@@ -507,7 +568,7 @@ Theorem C10_server_reads_back :
       zlen dcid <= 20 -> zlen scid <= 20 ->
       1 <= pnLen <= 4 -> pn < 2 ^ 62 -> 0 <= c_first c ->
       zlen payload = pk - h - 16 -> payload <> [] -> 4 <= pnLen + zlen payload ->
-      (largest = pn - 1 \/ (largest = -1 /\ pn <= 2 ^ (pnLen * 8) / 2)) ->
+      (largest = pn - 1 \/ (largest = -1 /\ pn < 2 ^ (pnLen * 8))) ->
       let hb := initialHeaderBytes ver dcid scid token lf pn pnLen in
       let pkt := protect aead_seal hp_mask true (snd hb) payload pn 0 (Z.to_nat pnLen) in
       fst hb = 0 /\ zlen (snd hb) = h /\
@@ -535,7 +596,7 @@ Theorem C10_server_reads_back_initial_keys :
     zlen dcid <= 20 -> zlen scid <= 20 ->
     1 <= pnLen <= 4 -> pn < 2 ^ 62 -> 0 <= c_first c ->
     zlen payload = pk - h - 16 -> payload <> [] -> 4 <= pnLen + zlen payload ->
-    (largest = pn - 1 \/ (largest = -1 /\ pn <= 2 ^ (pnLen * 8) / 2)) ->
+    (largest = pn - 1 \/ (largest = -1 /\ pn < 2 ^ (pnLen * 8))) ->
     let v2 := ver =? H_Version2 in
     let hb := initialHeaderBytes ver dcid scid token lf pn pnLen in
     let pkt := initial_protect v2 true keyDcid (snd hb) payload pn (Z.to_nat pnLen) in
@@ -588,7 +649,7 @@ Example C10_server_reads_back_nonvacuous :
   (forall pn kp ad p, length (toy_seal pn kp ad p) = (length p + 16)%nat) /\
   nth_error (flight (wcfg BPass [] 1 [(999, 1200); (0, 1250)] 0) 1700 []) 0 = Some (DG 1 1 19 [(0, 999)] 1182 1200 1200 1 false) /\
   zlen (repeat 7 8) = 8 /\ zlen (repeat 1 1165) = 1200 - 19 - 16 /\ repeat 1 1165 <> [] /\ 4 <= 1 + zlen (repeat 1 1165) /\
-  1 <= 2 ^ (1 * 8) / 2.
+  1 < 2 ^ (1 * 8).
 Proof. exact t_C10_server_reads_back_nonvacuous. Qed.
 Print Assumptions C10_server_reads_back_nonvacuous.
 
